@@ -162,6 +162,20 @@ func (p *Prog) inlineOverlay() (map[string][]byte, []string) {
 			break
 		}
 		if removed {
+			// imports only the removed helper used would now be unused
+			for _, im := range append([]*ast.ImportSpec{}, file.Imports...) {
+				path := strings.Trim(im.Path.Value, `"`)
+				if im.Name != nil && (im.Name.Name == "_" || im.Name.Name == ".") {
+					continue
+				}
+				if !astutil.UsesImport(file, path) {
+					if im.Name != nil {
+						astutil.DeleteNamedImport(fset, file, im.Name.Name, path)
+					} else {
+						astutil.DeleteImport(fset, file, path)
+					}
+				}
+			}
 			var buf bytes.Buffer
 			if err := format.Node(&buf, fset, file); err == nil {
 				overlay[fn] = buf.Bytes()
@@ -271,6 +285,17 @@ func isPureExpr(e ast.Expr) bool {
 // inlineOne rewrites, in the freshly parsed file, the statement containing the
 // call at byte offset off. Returns false if the call form is not supported.
 func (p *Prog) inlineOne(fset *token.FileSet, file *ast.File, off int, j inlineJob, suffix string) bool {
+	ok := p.inlineOneImpl(fset, file, off, j, suffix)
+	if !ok && os.Getenv("GP_INLINE_DEBUG") != "" {
+		fmt.Fprintf(os.Stderr, "INLINE-SKIP %s into %s at %s: %s\n", j.callee.Name, j.caller.Name, p.Pos(j.call), inlineWhy)
+	}
+	return ok
+}
+
+var inlineWhy string
+
+func (p *Prog) inlineOneImpl(fset *token.FileSet, file *ast.File, off int, j inlineJob, suffix string) bool {
+	inlineWhy = "unsupported call form"
 	callee := j.callee
 	cinfo := callee.Pkg.TypesInfo
 	if callee.Pkg != j.caller.Pkg {
@@ -305,7 +330,7 @@ func (p *Prog) inlineOne(fset *token.FileSet, file *ast.File, off int, j inlineJ
 					inner := &ast.AssignStmt{Lhs: []ast.Expr{ast.NewIdent(lhs.Name)}, Tok: token.ASSIGN, Rhs: []ast.Expr{call}}
 					s2 := &ast.IfStmt{Cond: ast.NewIdent(lhs.Name), Body: &ast.BlockStmt{List: []ast.Stmt{inner}}}
 					if spliceStmt(file, as, []ast.Stmt{s1, s2}) {
-						return p.inlineOne(fset, file, off, j, suffix)
+						return p.inlineOneImpl(fset, file, off, j, suffix)
 					}
 				}
 			}
@@ -440,6 +465,11 @@ func (p *Prog) inlineOne(fset *token.FileSet, file *ast.File, off int, j inlineJ
 	// free package-level names used by the callee must not be shadowed at the call site
 	callerScope := j.caller.Pkg.Types.Scope().Innermost(j.call.Pos())
 	shadow := false
+	needImports := map[string]string{}
+	defer func() {
+		// imports are added even if a later step fails; unused imports would break the
+		// overlay, so they are only added on success (see below)
+	}()
 	for ni, oi := range identMap {
 		_ = ni
 		o := cinfo.Uses[oi]
@@ -448,13 +478,40 @@ func (p *Prog) inlineOne(fset *token.FileSet, file *ast.File, off int, j inlineJ
 		}
 		if o.Parent() == o.Pkg().Scope() || isPkgName(o) {
 			if callerScope != nil {
-				if _, found := callerScope.LookupParent(oi.Name, j.call.Pos()); found != nil && found != o {
+				_, found := callerScope.LookupParent(oi.Name, j.call.Pos())
+				if pn, isPN := o.(*types.PkgName); isPN {
+					// package names are per-file objects: the caller's file must import the same package under the same name
+					if found == nil {
+						needImports[pn.Imported().Path()] = pn.Name()
+						continue
+					}
+					fpn, ok := found.(*types.PkgName)
+					if !ok || fpn.Imported() != pn.Imported() {
+						shadow = true
+					}
+					continue
+				}
+				if found != nil && found != o {
 					shadow = true
 				}
 			}
 		}
 	}
+	addImports := func() {
+		for path, name := range needImports {
+			base := path
+			if i := strings.LastIndex(path, "/"); i >= 0 {
+				base = path[i+1:]
+			}
+			if name == base {
+				astutil.AddImport(fset, file, path)
+			} else {
+				astutil.AddNamedImport(fset, file, name, path)
+			}
+		}
+	}
 	if shadow {
+		inlineWhy = "a package-level or imported name used by the helper is shadowed (or not imported) at the call site"
 		return false
 	}
 	// rename locals and substitute parameters
@@ -610,7 +667,11 @@ func (p *Prog) inlineOne(fset *token.FileSet, file *ast.File, off int, j inlineJ
 		if !rewriteReturns(nil, false) {
 			return false
 		}
-		return replaceStmt(st, wrap())
+		if replaceStmt(st, wrap()) {
+			addImports()
+			return true
+		}
+		return false
 	case *ast.GoStmt:
 		// go H(args)  ->  bindings evaluated now; go func() { body }()
 		lit := &ast.FuncLit{Type: &ast.FuncType{Params: &ast.FieldList{}}, Body: body}
@@ -619,7 +680,11 @@ func (p *Prog) inlineOne(fset *token.FileSet, file *ast.File, off int, j inlineJ
 		}
 		out := append([]ast.Stmt{}, pre...)
 		out = append(out, &ast.GoStmt{Call: &ast.CallExpr{Fun: lit}})
-		return replaceStmt(st, out)
+		if replaceStmt(st, out) {
+			addImports()
+			return true
+		}
+		return false
 	case *ast.ReturnStmt:
 		// return H(args)  (tail call with identical result arity)
 		if hasDefer || len(st.Results) != 1 {
@@ -649,7 +714,11 @@ func (p *Prog) inlineOne(fset *token.FileSet, file *ast.File, off int, j inlineJ
 		out := append([]ast.Stmt{}, pre...)
 		out = append(out, resultDecls...)
 		out = append(out, body.List...)
-		return replaceStmt(st, out)
+		if replaceStmt(st, out) {
+			addImports()
+			return true
+		}
+		return false
 	case *ast.AssignStmt:
 		if hasDefer || len(st.Rhs) != 1 || ast.Unparen(st.Rhs[0]) != ast.Expr(call) {
 			return false
@@ -699,16 +768,28 @@ func (p *Prog) inlineOne(fset *token.FileSet, file *ast.File, off int, j inlineJ
 			// if x := H(); cond {...}  ->  { decls; inlined; if cond {...} }
 			ifs.Init = nil
 			repl := append(inl, ifs)
-			return replaceStmtKeep(file, ifs, repl)
+			if replaceStmtKeep(file, ifs, repl) {
+				addImports()
+				return true
+			}
+			return false
 		}
 		if _, ok := holder.(*ast.BlockStmt); ok {
 			// a := in a block: the declarations must stay visible afterwards, so splice
 			// without an enclosing block
-			return spliceStmt(file, st, inl)
+			if spliceStmt(file, st, inl) {
+				addImports()
+				return true
+			}
+			return false
 		}
 		switch holder.(type) {
 		case *ast.CaseClause, *ast.CommClause:
-			return spliceStmt(file, st, inl)
+			if spliceStmt(file, st, inl) {
+				addImports()
+				return true
+			}
+			return false
 		}
 		return false
 	}
